@@ -9,7 +9,8 @@
    a reset Logon we sent on this connection) holds on every trace in which the application does not itself send a Logon
    carrying 141=Y through SendToTarget during the handshake, and is refuted without that hypothesis (ResetEchoProofs.v).
    Clause 705 (no reset without a cause) has no clause in c07_scan; it is stated as a predicate of its own
-   (Session/SpecCause.v: c07_cause_check) and holds on every trace (ResetCauseProofs.v).
+   (Session/SpecCause.v: c07_cause_check; buffered frames are covered, through drainMessageIn) and holds on every trace
+   (ResetCauseProofs.v).
    Clause 707 (reply to an accepted reset Logon: flag echoed as number 1; next sender number 2, or 3 when the peer's reset
    Logon is itself numbered above 1 and a ResendRequest is queued as number 2) holds on every trace (LogonProofs.v). *)
 From Coq Require Import ZArith List Bool.
@@ -226,15 +227,17 @@ Theorem c07_received_reset_logon_refuted :
 Proof. exact c07_709_app_reset_logon_refuted. Qed.
 
 (* ---- clause 705: no reset without a cause ---- *)
-(* STEP: with no reset option configured and nothing buffered inbound, from every state whose stash holds only sequence-gated
-   messages and gap fills (invariant TS), an event that is not a cause (a directly processed Logon carrying 141=Y, the
-   ResetSeqTime crossing, an application-sent Logon carrying 141=Y) resets nothing. *)
+(* STEP: with no reset option configured, from every state whose stash holds only sequence-gated messages and gap fills
+   (invariant TS) and whose inbound buffer holds no Logon carrying 141=Y (whatever else is buffered: the buffered frames are
+   handled by EDeliver, and by handleDisconnectState before it disconnects), an event that is not a cause (a directly
+   processed Logon carrying 141=Y, the ResetSeqTime crossing, an application-sent Logon carrying 141=Y) resets nothing. *)
 Theorem c07_no_reset_without_cause_step : forall s e,
-  TS s -> s_in_buf s = [] -> no_reset_option (s_cfg s) = true -> reset_cause e = false ->
+  TS s -> buf_clean (s_in_buf s) -> no_reset_option (s_cfg s) = true -> reset_cause e = false ->
   ~ In CbStoreReset (s_cbs (step s e)).
 Proof. exact step_no_reset_without_cause. Qed.
 
-(* TRACE LEVEL: the predicate c07_cause_check (Session/SpecCause.v, code 705) reports nothing on any trace of the model;
+(* TRACE LEVEL: the predicate c07_cause_check (Session/SpecCause.v, code 705; it judges every event except those that
+   handle buffered frames while a Logon carrying 141=Y may sit in the buffer) reports nothing on any trace of the model;
    and c07_check itself never reports 705 (its scan has no such clause). *)
 Theorem c07_no_reset_without_cause_on_every_trace : forall c es,
   c07_cause_check c (combine es (map obs_of (run_trace es (init_sess c)))) = [].
@@ -251,3 +254,11 @@ Example c07_no_reset_without_cause_example :
      (3, 3, false, false); (3, 1, true, true); (2, 1, true, true); (2, 1, true, true)]
   /\ c07_cause_check (rcx_cfg Acceptor) (rcx_run (rcx_cfg Acceptor) rcx_trace) = [].
 Proof. exact rcx_trace_resets. Qed.
+
+(* buffered frames that are not a reset Logon do not excuse a reset: one Heartbeat delivered, one handled by
+   handleDisconnectState when the connection is lost; the predicate judges both events; nothing is reset *)
+Example c07_no_reset_without_cause_buffered_example :
+  map (fun o => (ob_inbuf (snd o), ob_snd (snd o), ob_tgt (snd o), has_reset (ob_cbs (snd o)))) (rcx_run (rcx_cfg Acceptor) rcx_drain_trace)
+  = [(0, 1, 1, false); (0, 2, 2, false); (1, 2, 2, false); (2, 2, 2, false); (1, 2, 3, false); (0, 2, 4, false)]
+  /\ c07_cause_check (rcx_cfg Acceptor) (rcx_run (rcx_cfg Acceptor) rcx_drain_trace) = [].
+Proof. exact rcx_drain_trace_keeps. Qed.
